@@ -5,6 +5,9 @@ Static rules over the seven generators (and mjcf_schema.py where they consume it
  R-EXHAUST         every dispatch over attribute type / cardinality / constraint kind covers the vocabulary that
                    mjcf_schema.py itself defines (read by literal evaluation), or has an explicit default / raise
  R-EXHAUST-MEMBER  attributes read from members of a Group/Element are declared by every class the member may have
+ R-MEMBER-SCAN     a `.members` scan that keeps only Attr members of an element must also handle its Use members (or
+                   range over the groups too): otherwise inherited attributes are dropped and what is derived from the
+                   scan disagrees with what is emitted from the expansion (schema.expanded_attrs)
  R-ASSUME-GUAR     lookups in schema.enums/groups/elements use keys the validator has checked (or keys of the table);
                    the schema a generator sees always comes from parse_file/parse_string
  R-RECURSION       element-tree walks (recursive or work-list) carry an ancestry/visited guard, because the validator
@@ -540,6 +543,171 @@ def rule_member(res, mods):
                             f"{lacking}: AttributeError for a valid schema whose group/element has such a member")
 
 
+# ============================================================================ R-MEMBER-SCAN
+_WRAP = ("list", "tuple", "iter", "reversed", "sorted")
+
+
+def _members_owner(it, fn):
+    """Owner expression X when the iterable is `X.members` (possibly through a single-assigned local or list()/iter())."""
+    it = P._single_value(it, fn) if fn is not None else it
+    while isinstance(it, ast.Call) and isinstance(it.func, ast.Name) and it.func.id in _WRAP and len(it.args) == 1:
+        it = P._single_value(it.args[0], fn)
+    if isinstance(it, ast.Attribute) and it.attr == "members":
+        return it.value
+    return None
+
+
+def _isinst_classes(tests, var, fn):
+    """Class names the isinstance tests of `var` among `tests` mention (predicate helpers and boolean locals expanded)."""
+    out = set()
+    forms = P.Forms(fn)
+    for t in tests:
+        stack = [forms.mk(t)]
+        while stack:
+            f = stack.pop()
+            if f[0] == "lit":
+                if f[1][0] == "isinst" and f[1][1] == var:
+                    out |= set(f[1][2])
+            else:
+                stack.extend(f[1])
+    return out
+
+
+def _tests_in(nodes, fn):
+    out = []
+    for root in nodes:
+        for n in ast.walk(root):
+            if getattr(n, "_fn", fn) is not fn:
+                continue
+            if isinstance(n, (ast.If, ast.IfExp, ast.While, ast.Assert)):
+                out.append(n.test)
+            elif isinstance(n, ast.comprehension):
+                out.extend(n.ifs)
+    return out
+
+
+def _binding(owner, at, fn):
+    """The loop / comprehension generator that binds the owner variable at `at` (the function itself for a parameter or
+    a plain local): two scans are of the same declaration only if their owners share it."""
+    if isinstance(owner, ast.Name):
+        for a in [at] + list(P.ancestors(at)):
+            if isinstance(a, (ast.ListComp, ast.SetComp, ast.GeneratorExp, ast.DictComp)):
+                for g in a.generators:
+                    if any(isinstance(x, ast.Name) and x.id == owner.id for x in ast.walk(g.target)):
+                        return g
+            if isinstance(a, ast.For) and a._fn is fn and not P.inside(at, a.iter) and \
+                    any(isinstance(x, ast.Name) and x.id == owner.id for x in ast.walk(a.target)):
+                return a
+    return fn
+
+
+def _iter_tables_ip(expr, fn, depth=0):
+    """P._iter_tables, followed into the callers when the iterable is a parameter of a helper."""
+    t = P._iter_tables(expr, fn)
+    if t is None and isinstance(expr, ast.Name) and expr.id in fn.params and expr.id not in P.stores_of(fn) and depth < 4:
+        sites = P._sites(fn)
+        out = set()
+        for caller, call in sites:
+            a = P.bind_args(call, fn).get(expr.id)
+            ta = _iter_tables_ip(a, caller, depth + 1) if a is not None and caller is not fn else None
+            if ta is None:
+                return None
+            out |= ta
+        return out if sites else None
+    return t
+
+
+def _owner_tables(owner, at, fn, depth=0):
+    """Schema tables whose declarations the owner of a `.members` scan ranges over (loop / comprehension variable over
+    `<schema>.T.values()`, sums and copies of such, `.items()`; a parameter: over all call sites), or None."""
+    if not isinstance(owner, ast.Name) or depth > 4:
+        return None
+    for a in [at] + list(P.ancestors(at)):
+        if isinstance(a, (ast.ListComp, ast.SetComp, ast.GeneratorExp, ast.DictComp)):
+            for g in a.generators:
+                if isinstance(g.target, ast.Name) and g.target.id == owner.id:
+                    return _iter_tables_ip(g.iter, fn)
+        if isinstance(a, ast.For) and a._fn is fn and not P.inside(at, a.iter):
+            if isinstance(a.target, ast.Name) and a.target.id == owner.id:
+                return _iter_tables_ip(a.iter, fn)
+            if isinstance(a.target, ast.Tuple) and len(a.target.elts) == 2 and isinstance(a.target.elts[1], ast.Name) and \
+                    a.target.elts[1].id == owner.id and isinstance(a.iter, ast.Call) and isinstance(a.iter.func, ast.Attribute) \
+                    and a.iter.func.attr == "items" and P.table_of(a.iter.func.value):
+                return {P.table_of(a.iter.func.value)}
+    if owner.id in fn.params and owner.id not in P.stores_of(fn):
+        sites = P._sites(fn)
+        if not sites:
+            return None
+        out = set()
+        for caller, call in sites:
+            a = P.bind_args(call, fn).get(owner.id)
+            t = _owner_tables(a, call, caller, depth + 1) if a is not None else None
+            if t is None:
+                return None
+            out |= t
+        return out
+    return None
+
+
+def rule_member_scan(res, mods, und):
+    sm = P.model()
+    res.rule("R-MEMBER-SCAN", "a scan of `<declaration>.members` that keeps the Attr members (isinstance filter) sees the "
+             "attributes an element HAS only if it also looks at the Use members (expands / handles them in the same "
+             "function), or if the scanned declarations range over the groups as well as the elements (every attribute "
+             "declaration is then visited); a scan of an element's own Attr members alone silently drops what `use <group>` "
+             "brings in (schema.expanded_attrs is the expansion)", floor=4)
+    for mod in mods + [sm.mod]:
+        f = _file(mod)
+        for fn in mod.funcs.values():
+            scans = []          # (member variable, owner expr, node, tests)
+            for n in mod.nodes(fn):
+                if isinstance(n, ast.For) and isinstance(n.target, ast.Name):
+                    ow = _members_owner(n.iter, fn)
+                    if ow is not None:
+                        scans.append((n.target.id, ow, n, _tests_in(n.body, fn)))
+                elif isinstance(n, ast.comprehension) and isinstance(n.target, ast.Name):
+                    ow = _members_owner(n.iter, fn)
+                    if ow is not None:
+                        comp = n._parent
+                        later = comp.generators[comp.generators.index(n):]
+                        tests = [c for g in later for c in g.ifs]
+                        tests += _tests_in([getattr(comp, a) for a in ("elt", "key", "value") if hasattr(comp, a)], fn)
+                        scans.append((n.target.id, ow, n, tests))
+            for var, ow, node, tests in scans:
+                named = _isinst_classes(tests, var, fn)
+                if "Attr" not in named:
+                    continue                    # not a scan for attributes (children / consts / constraints / uses)
+                line = getattr(node, "lineno", None) or node.iter.lineno
+                construct = f"{mod.name}.{fn.qual}:{P.text(ow).replace(' ', '')}.members[Attr]"
+                if "Use" in named:
+                    res.ok("R-MEMBER-SCAN", construct, {"file": f, "line": line, "how": "USE-HANDLED (same scan)"})
+                    continue
+                sib = [s for s in scans if s[2] is not node and P.text(s[1]) == P.text(ow) and
+                       _binding(s[1], s[2].iter, fn) is _binding(ow, node.iter, fn) and
+                       "Use" in _isinst_classes(s[3], s[0], fn)]
+                if sib:
+                    res.ok("R-MEMBER-SCAN", construct, {"file": f, "line": line, "how": "USE-HANDLED (sibling scan of the same owner)"})
+                    continue
+                cls = P.classes_of(ow, fn, node.iter)
+                if not cls:
+                    und.add("R-MEMBER-SCAN", construct, f, line, f"class of `{P.text(ow)}` (owner of the scanned members) cannot be inferred")
+                    continue
+                if "Element" not in cls:
+                    res.ok("R-MEMBER-SCAN", construct, {"file": f, "line": line, "how": f"OWN-MEMBERS of {sorted(cls)}"})
+                    continue
+                tabs = _owner_tables(ow, node.iter, fn)
+                if tabs and "groups" in tabs:
+                    res.ok("R-MEMBER-SCAN", construct, {"file": f, "line": line,
+                                                        "how": f"ALL-DECLARATIONS (owner ranges over {sorted(tabs)})"})
+                    continue
+                res.bad("R-MEMBER-SCAN", construct, f, line,
+                        f"scan of `{P.text(ow)}.members` keeps only the Attr members of an element and never looks at its Use members"
+                        + (f" (the owner ranges over schema.{'/'.join(sorted(tabs))} only)" if tabs else "") +
+                        ": attributes the element inherits through `use <group>` are silently dropped, so what is derived "
+                        "here disagrees with what is emitted from schema.expanded_attrs(element) (e.g. a type is referenced "
+                        "that is never defined); iterate schema.expanded_attrs(element), handle Use, or range over the groups too")
+
+
 # ============================================================================ R-ASSUME-GUAR
 def _eq_guaranteed(node, fn, key_text, T, guar):
     """Dominating `any(isinstance(m, C) and m.<field> == key ...)` with (C, field) a validator guarantee for table T."""
@@ -960,6 +1128,7 @@ def run(res, tier):
     rule_exhaust(res, mods)
     rule_member(res, mods)
     und = P.Undecided()
+    rule_member_scan(res, mods, und)
     literals = rule_guar(res, mods, und)
     rule_recursion(res, mods, und)
     res.count("modules", len(mods) + 1)
@@ -972,8 +1141,11 @@ def run(res, tier):
         "read from mjcf_schema.py: parse_type's return constraints, CARDINALITIES, CONSTRAINT_VERBS) or has a default/raise; "
         "attributes of Group/Element members are isinstance-narrowed; every schema.enums/groups/elements lookup key is a key "
         "of that table, a validator-checked field, guarded, or a hard-coded anchor name (listed); recursive and work-list "
-        "element walks have an ancestry/visited guard.")
-    res.not_decided = ("faithfulness of the emitted text (types, arities, defaults, enum constants) for all schemas; lookups in "
+        "element walks have an ancestry/visited guard; a scan of an element's members that keeps only Attr also handles Use "
+        "(or covers the groups), so that what is derived from it agrees with what is emitted from the expansion.")
+    res.not_decided = ("member scans that do not iterate `.members` in a for loop / comprehension (index loops, filter()); whether a "
+                       "scan over groups and elements together is then used per declaration rather than as one aggregate; "
+                       "faithfulness of the emitted text (types, arities, defaults, enum constants) for all schemas; lookups in "
                        "tables parsed from C headers (self.dims[...], struct fields); termination of generate_schema.py's "
                        "text scanner.")
     res.assumptions = ["generators are specified for schemas that declare the hard-coded anchor names: " +
@@ -1167,6 +1339,65 @@ MUTANTS += [
                (TABLE_PY, _EC_HEAD, "def _first_visit(visited, name):\n  return True\n\n\n" + _EC_HEAD)]},
     {"id": "ctl-popped-item-unpacked-later", "expect": None,
      "edits": [(XSD_PY, "      name, projected = self.pending.pop(0)\n", "      item = self.pending.pop(0)\n      name, projected = item\n")]},
+]
+
+
+_FLAGS_SCAN = """    flags_targets = set()
+    for element in schema.elements.values():
+      for attr in schema.expanded_attrs(element):
+        if attr.type == 'flags':
+          flags_targets.add(attr.target)
+"""
+_OWN_ATTRS = """def _flag_attrs(element):
+  out = []
+  for member in element.members:
+    if not isinstance(member, mjcf_schema.Attr):
+      continue
+    if member.type == 'flags':
+      out.append(member)
+  return out
+
+
+"""
+_EXPANDING_FOR = """def _flag_attrs(schema, element):
+  out = []
+  for member in element.members:
+    if isinstance(member, mjcf_schema.Attr) and member.type == 'flags':
+      out.append(member)
+    elif isinstance(member, mjcf_schema.Use):
+      out.extend(a for a in schema._group_attrs(member.group) if a.type == 'flags')
+  return out
+
+
+"""
+
+MUTANTS += [
+    # R-MEMBER-SCAN: what is defined (kwlist_<enum>) must be derived from the same attributes as what is referenced
+    {"id": "flags-scan-own-members-comprehension", "expect": ("R-MEMBER-SCAN", "generate_xsd._Emitter.generate:element.members[Attr]"),
+     "edits": [(XSD_PY, _FLAGS_SCAN, "    flags_targets = {member.target\n                     for element in schema.elements.values()\n"
+                "                     for member in element.members\n                     if isinstance(member, mjcf_schema.Attr)\n"
+                "                     and member.type == 'flags'}\n")]},
+    {"id": "flags-scan-own-members-continue-filter", "expect": ("R-MEMBER-SCAN", "generate_xsd._Emitter.generate:element.members[Attr]"),
+     "edits": [(XSD_PY, _FLAGS_SCAN, "    flags_targets = set()\n    for element in schema.elements.values():\n      for member in element.members:\n"
+                "        if not isinstance(member, mjcf_schema.Attr):\n          continue\n        if member.type == 'flags':\n"
+                "          flags_targets.add(member.target)\n")]},
+    {"id": "flags-scan-own-members-in-helper", "expect": ("R-MEMBER-SCAN", "generate_xsd._flag_attrs:element.members[Attr]"),
+     "edits": [(XSD_PY, "class _Emitter:", _OWN_ATTRS + "class _Emitter:"),
+               (XSD_PY, _FLAGS_SCAN, "    flags_targets = {a.target for element in schema.elements.values() for a in _flag_attrs(element)}\n")]},
+    {"id": "table-rows-from-own-members", "expect": ("R-MEMBER-SCAN", "generate_mjcf_table.generate.visit:element.members[Attr]"),
+     "edits": [(TABLE_PY, "    attrs = [a for a in schema.expanded_attrs(element)]\n",
+                "    attrs = [a for a in element.members if isinstance(a, mjcf_schema.Attr)]\n")]},
+    {"id": "ctl-flags-scan-comprehension-over-expansion", "expect": None,
+     "edits": [(XSD_PY, _FLAGS_SCAN, "    flags_targets = {attr.target\n                     for element in schema.elements.values()\n"
+                "                     for attr in schema.expanded_attrs(element)\n                     if attr.type == 'flags'}\n")]},
+    {"id": "ctl-flags-scan-helper-expands-groups-itself", "expect": None,
+     "edits": [(XSD_PY, "class _Emitter:", _EXPANDING_FOR + "class _Emitter:"),
+               (XSD_PY, _FLAGS_SCAN, "    flags_targets = {a.target for element in schema.elements.values() for a in _flag_attrs(schema, element)}\n")]},
+    {"id": "ctl-flags-scan-over-all-declarations", "expect": None,
+     "edits": [(XSD_PY, _FLAGS_SCAN, "    declarations = list(schema.groups.values()) + list(schema.elements.values())\n"
+                "    flags_targets = {member.target\n                     for decl in declarations\n"
+                "                     for member in decl.members\n                     if isinstance(member, mjcf_schema.Attr)\n"
+                "                     and member.type == 'flags'}\n")]},
 ]
 
 
